@@ -694,6 +694,14 @@ def run(model, tier):
     sites = 0
     sites += guderley_sites(model, res)
     sites += igeos_sites(model, res)
+    # ... and the drivers hand each shock helper the state of ONE side: a speed or star density computed
+    # from a mixed state is not the speed / density of the jump between the two returned states
+    from .c09 import side_consistency
+    side_consistency(model, res, prop=PROP, rule='C02.side-consistency',
+                     callees=('shock_velocity', 'rho_star_shock', 'shock', 'shock_speed', 'star_velocity', 'shock_jump',
+                              'match_shocks'), min_calls=8,
+                     why='the shock speed / post-shock state is then not the one that satisfies the jump conditions '
+                         'between the two states the solver returns on either side of that shock')
     sites += piecewise_sites(model, res)
     sites += sedov_site(model, res)
     sites += mader_site(model, res)
